@@ -132,7 +132,9 @@ def per_side_cuts(ck, rule, cut_bounds, impls, LS, RS):
         for pa in explore(ck, m):
             if pa.outcome == "return" and pa.value[0] == "app" and len(pa.value[3]) == 2:
                 a = [v for _, v in pa.value[3]]
-                ok = all(x[0] == "app" and x[2] == sub for x, sub in zip(a, (LS, RS))) and a[0][1] == a[1][1]
+                # both arguments chosen by one and the same condition (`x.getR() if c else x.getQ()`, twice): the two cases
+                cases = [[a[0][2], a[1][2]], [a[0][3], a[1][3]]] if all(x[0] == "select" for x in a) and a[0][1] == a[1][1] else [a]
+                ok = all(all(x[0] == "app" and x[2] == sub for x, sub in zip(a_, (LS, RS))) and a_[0][1] == a_[1][1] for a_ in cases)
                 ck.judge(bool(ok), rule, f"{short(m)}:characteristics", where(m, pa.node),
                          "characteristics are taken from (left sub-run, right sub-run) with the same label getter",
                          found="; ".join(T.show(x)[:80] for x in a))
@@ -140,27 +142,35 @@ def per_side_cuts(ck, rule, cut_bounds, impls, LS, RS):
                     # which axis: a peak position is the diagonal r - q of its segment; both coordinates ascend along a chain on
                     # both strands (C11.1), so when the left diagonal is the larger one the two runs overlap on the *reference*
                     # axis and must be cut on reference labels, otherwise on query labels - whatever the strand
-                    on_reference = "Reference" in a[0][1].split(".")[-1]
-                    want = T.mk_gt(T.mk_attr(T.mk_attr(LS, "peak"), "position"), T.mk_attr(T.mk_attr(RS, "peak"), "position"))
-                    tv = T.specialize(T.as_bool(want), pa.facts, boolpos=True)
-                    decided = tv[1] if tv[0] == "c" and isinstance(tv[1], bool) else None
-                    strand = [c for c, _, _ in pa.state.assumptions
-                              if any(x[0] == "attr" and x[2] in ("reverse", "reverseStrand") for x in T.subterms(c))]
-                    axis = "reference" if on_reference else "query"
-                    if strand:
-                        ck.violation(rule, f"{short(m)}:axis", where(m, pa.node), "the axis on which the overlap is cut depends on the "
-                                     "strand: mirrored query coordinates ascend on both strands, the geometry of the overlap does not "
-                                     "change with it", found=f"{axis} labels when " + pa.describe()[:200],
-                                     required="reference labels iff left peak position > right peak position, on both strands")
-                    elif decided is None:
-                        raise AnalysisError(f"{where(m, pa.node)}: the test that chooses the cut axis is not a comparison of the two "
-                                            f"sub-runs' peak positions: {pa.describe()[:200]}")
-                    else:
-                        ck.judge(decided == on_reference, rule, f"{short(m)}:axis", where(m, pa.node),
-                                 "the overlap is cut on reference labels exactly when the left sub-run's diagonal (peak position) is "
-                                 "the larger one - then the runs overlap on the reference axis - and on query labels otherwise",
-                                 found=f"{axis} labels when left peak position {'>' if decided else '<='} right peak position",
-                                 required="reference labels iff left.peak.position > right.peak.position")
+                    selected = len(cases) == 2
+                    for k_case, a_ in enumerate(cases):
+                        facts_ = dict(pa.facts)
+                        if selected:
+                            pc_, pol_ = T.positive(T.as_bool(a[0][1]))
+                            facts_[pc_] = pol_ if k_case == 0 else (not pol_)
+                        on_reference = "Reference" in a_[0][1].split(".")[-1]
+                        want = T.mk_gt(T.mk_attr(T.mk_attr(LS, "peak"), "position"), T.mk_attr(T.mk_attr(RS, "peak"), "position"))
+                        tv = T.specialize(T.as_bool(want), facts_, boolpos=True)
+                        decided = tv[1] if tv[0] == "c" and isinstance(tv[1], bool) else None
+                        strand = [c for c, _, _ in pa.state.assumptions
+                                  if any(x[0] == "attr" and x[2] in ("reverse", "reverseStrand") for x in T.subterms(c))]
+                        if selected and any(x[0] == "attr" and x[2] in ("reverse", "reverseStrand") for x in T.subterms(a[0][1])):
+                            strand = [a[0][1]]
+                        axis = "reference" if on_reference else "query"
+                        if strand:
+                            ck.violation(rule, f"{short(m)}:axis", where(m, pa.node), "the axis on which the overlap is cut depends on the "
+                                         "strand: mirrored query coordinates ascend on both strands, the geometry of the overlap does not "
+                                         "change with it", found=f"{axis} labels when " + pa.describe()[:200],
+                                         required="reference labels iff left peak position > right peak position, on both strands")
+                        elif decided is None:
+                            raise AnalysisError(f"{where(m, pa.node)}: the test that chooses the cut axis is not a comparison of the two "
+                                                f"sub-runs' peak positions: {pa.describe()[:200]}")
+                        else:
+                            ck.judge(decided == on_reference, rule, f"{short(m)}:axis", where(m, pa.node),
+                                     "the overlap is cut on reference labels exactly when the left sub-run's diagonal (peak position) is "
+                                     "the larger one - then the runs overlap on the reference axis - and on query labels otherwise",
+                                     found=f"{axis} labels when left peak position {'>' if decided else '<='} right peak position",
+                                     required="reference labels iff left.peak.position > right.peak.position")
 
 
 
